@@ -52,7 +52,8 @@ ASSUMPTIONS = [
     "durability (fsync), directory-entry reordering and multi-block write reordering are outside the claim",
     "bound: crash point 0..%d (covers every operation of store/store_metadata/remove, later points = no crash), torn length "
     "0..16 (quick) / 0..256 (thorough) plus len//2 and len-1 of the buffer being flushed, old/new value types text/bytes/int/dict/pickle chosen independently (type-changing overwrites included)" % MAXOPS,
-    "XORFileCache / FernetFileCache share FileCache's write path; their encode/decode (numpy, cryptography) are outside reach",
+    "XORFileCache / FernetFileCache (numpy / cryptography) are included: their encode/decode run UNTRACED on the concrete bytes of each path, "
+    "only the crash point and torn length are solver decisions",
     "entry read back through a fresh object: cache.get(key) / store.get_bytes(key); 'nothing' = None / raises / not contained",
 ]
 def PRECHECK():
@@ -64,7 +65,7 @@ EXPLANATION = "symbolic crash point and torn length on ShimFS; recovery read com
 
 K = "kq/act-1"          # the entry being written (a query-like key)
 OTHER = "other/q"       # a second entry that must stay intact
-BACKENDS = ["FileCache", "FileStore", "StoreCache-flat", "StoreCache-nested"]
+BACKENDS = ["FileCache", "FileStore", "StoreCache-flat", "StoreCache-nested", "XORFileCache", "FernetFileCache"]
 OPS = ["store", "store_metadata", "remove"]
 
 
@@ -80,6 +81,10 @@ def _open(backend):
         return FileCache(sl.ROOT + "/cache")
     if backend == "FileStore":
         return FileStore(sl.ROOT)
+    if backend == "XORFileCache":
+        return lc.XORFileCache(sl.ROOT + "/xcache", b"secret-code")
+    if backend == "FernetFileCache":
+        return lc.FernetFileCache(sl.ROOT + "/fcache", b"ZmVybmV0LWtleS1mb3ItdGhlLWMxMy1oYXJuZXNzISE=")
     return StoreCache(FileStore(sl.ROOT), "cache", flat=(backend == "StoreCache-flat"))
 
 
